@@ -73,14 +73,49 @@ def idx() -> dict:
                 if f in k:
                     k[f] = int(k[f], 16)
             out[name] = k
+        out.update(derived_keys())
         _IDX = out
     return _IDX
 
 
-def key_names(kind: Optional[str] = None) -> list[str]:
-    """kind: None | 'rsa' | 'ecc' | curve name | 'rsa2048'..."""
+SNIFF_BYTES = (0x30, 0x2D, 0x04, 0x00, 0x80)  # DER SEQUENCE, '-', uncompressed-point tag, zero, sign bit
+_DERIVED: Optional[dict] = None
+
+
+def derived_keys() -> dict:
+    """Extra ECC keys (not in the committed pool) whose X, and separately whose Y, starts with each byte that a
+    format sniffer could key on: name p256_x30, p384_y2d, ...  Found by walking d = 1, 2, ... with the own affine
+    arithmetic (deterministic, no entropy; ~1/256 per step and target), so the expected numbers do not come from
+    `cryptography`; the object under test is built from d by ec.derive_private_key.  P-521 is left out: the top
+    byte of a 66-byte coordinate is 0 or 1."""
+    global _DERIVED
+    if _DERIVED is None:
+        out: dict = {}
+        for prefix, c in (("p256", recdsa.P256), ("p384", recdsa.P384)):
+            want = {(coord, b) for coord in "xy" for b in SNIFF_BYTES}
+            pt = None
+            d = 0
+            while want and d < 50000:
+                d += 1
+                pt = recdsa.affine_add(c, pt, c.g)
+                for coord, val in (("x", pt[0]), ("y", pt[1])):
+                    top = val >> (8 * (c.size - 1))
+                    if (coord, top) in want:
+                        want.discard((coord, top))
+                        out[f"{prefix}_{coord}{top:02x}"] = {"type": "ecc", "curve": c.name, "bits": c.nbits, "d": d,
+                                                            "x": pt[0], "y": pt[1], "derived": True}
+            if want:
+                raise core.HarnessError(f"no scalar found for {sorted(want)} on {c.name}")
+        _DERIVED = out
+    return _DERIVED
+
+
+def key_names(kind: Optional[str] = None, derived: bool = False) -> list[str]:
+    """kind: None | 'rsa' | 'ecc' | curve name | 'rsa2048'...; the committed pool, or (derived=True) the derived keys"""
     out = []
     for name, k in sorted(idx().items()):
+        if bool(k.get("derived")) != derived:
+            continue
         if kind is None or k["type"] == kind or k.get("curve") == kind or name.startswith(str(kind) + "_"):
             out.append(name)
     return out
@@ -94,6 +129,11 @@ def family(name: str) -> str:
 def ckey(name: str):
     """`cryptography` private key object built from the fixture DER (only used to *construct* the
     SPSDK object under test through its plain constructor; RSA consistency check skipped for speed)."""
+    if name not in _CKEYS and idx()[name].get("derived"):
+        from cryptography.hazmat.primitives.asymmetric import ec
+
+        k = idx()[name]
+        _CKEYS[name] = ec.derive_private_key(k["d"], {"secp256r1": ec.SECP256R1, "secp384r1": ec.SECP384R1}[k["curve"]]())
     if name not in _CKEYS:
         from cryptography.hazmat.primitives.serialization import load_der_private_key
 
@@ -219,6 +259,24 @@ def judge_raw_out(out: bytes, r: int, s: int, size: int) -> Optional[str]:
     return None
 
 
+def der_len_class(ln: int, size: int) -> str:
+    """Where the length of a DER ECDSA signature lies relative to the byte lengths the implementation could key on:
+    the fixed raw widths 2*cs (and 2*cs+1, which integer division maps to the same width), the window
+    2*cs+3 .. 2*cs+8 of full-size DER signatures of the signature's own curve, the same window of another supported
+    curve, or none of these.  The classes are disjoint (raw widths 64/96/132, windows 67-72 / 99-104 / 135-140)."""
+    for w in WIDTHS:
+        if ln == 2 * w:
+            return "len-is-a-raw-width"
+        if ln == 2 * w + 1:
+            return "len-is-a-raw-width+1"
+    if 2 * size + 3 <= ln <= 2 * size + 8:
+        return "len-in-own-curve-window"
+    for w in WIDTHS:
+        if w != size and 2 * w + 3 <= ln <= 2 * w + 8:
+            return "len-in-other-curve-window"
+    return "len-in-no-window"
+
+
 def w_conv(case: dict) -> dict:
     from spsdk.crypto.crypto_types import SPSDKEncoding
     from spsdk.crypto.keys import ECDSASignature, EccCurve, KeyEccCommon
@@ -265,11 +323,14 @@ def w_conv(case: dict) -> dict:
                 tag = f"{c.name} r:{lr}B/msb{mr} s:{ls}B/msb{ms} len(DER)={len(D)}"
 
                 # --- DER input ---------------------------------------------------------------
-                # der_fail names what ECDSASignature itself does wrong on this DER input; the provider
-                # normalisation below inherits it instead of opening a second finding for the same cause
+                # der_fail names what ECDSASignature itself does wrong on this DER input: the observed behaviour plus
+                # the class of the DER length (der_len_class), so that two causes with different failure domains can
+                # never share a discriminator.  The provider normalisation below inherits it instead of opening a
+                # second finding for the same cause.
                 cnt["cv_calls"] += 1
                 der_fail: Optional[str] = None
                 info = ""
+                lcls = der_len_class(len(D), size)
                 st, enc = call(ECDSASignature.get_encoding, D)
                 sniffed_raw = st == "ok" and enc == SPSDKEncoding.NXP
                 if st not in ("ok", "spsdk"):
@@ -278,13 +339,13 @@ def w_conv(case: dict) -> dict:
                 if der_fail:
                     pass
                 elif st == "spsdk":
-                    der_fail, info = ("taken-for-raw" if sniffed_raw else "rejected"), f"parse: {obj}"
+                    der_fail, info = ("taken-for-raw+rejected" if sniffed_raw else "rejected"), f"parse: {obj}"
                 elif st != "ok":
                     der_fail, info = f"parse:{st}", str(obj)
                 elif (obj.r, obj.s) != (r, s):
                     der_fail, info = ("taken-for-raw" if sniffed_raw else "wrong-rs"), f"parsed r={obj.r:#x} s={obj.s:#x}"
                 elif sniffed_raw:
-                    der_fail, info = "taken-for-raw", "get_encoding says NXP"
+                    der_fail, info = "get_encoding-says-raw", "get_encoding says NXP although parse() decodes the DER"
                 else:
                     st2, d2 = call(obj.export, SPSDKEncoding.DER)
                     st3, r2 = call(obj.export, SPSDKEncoding.NXP)
@@ -299,6 +360,7 @@ def w_conv(case: dict) -> dict:
                         if why:
                             der_fail, info = f"export-raw:{why}", r2.hex()
                 if der_fail:
+                    der_fail = f"{der_fail}:{lcls}"
                     v("ecdsasig-der", der_fail, f"{tag} DER={D.hex()}: {info}")
 
                 # --- raw input ---------------------------------------------------------------
@@ -430,6 +492,8 @@ def oracle_public_bytes(data: bytes, enc: str, name: str) -> dict:
 def other_key(name: str, same_family: bool = True) -> str:
     """Deterministic 'wrong key': next key of the same family, or the first key of another family of the same type."""
     k = idx()[name]
+    if k.get("derived"):
+        return key_names(k["curve"])[0] if same_family else key_names("secp521r1")[0]
     if same_family:
         fam = [n for n in key_names() if family(n) == family(name) or
                (k["type"] == "ecc" and idx()[n].get("curve") == k["curve"])]
@@ -1345,6 +1409,28 @@ def sig_bits(name: str, scheme: str) -> int:
     return 8 * len(rder.encode_ecdsa_sig((1 << (8 * size - 1 if size != 66 else 520)), (1 << (8 * size - 1 if size != 66 else 520))))
 
 
+# quick tier: how many pool keys per family take part in the *expensive* products (sign/verify, RSA private-key
+# round trips, command line on RSA keys); for ECC the first regular key plus the leading-zero X / Y keys.  Cheap
+# products (public keys, ECC private keys, conversion classes, certificates) and the thorough tier use every key.
+QUICK_RSA_KEYS = {"sv": {"rsa2048": 2, "rsa3072": 1, "rsa4096": 1}, "rt": {"rsa2048": 5, "rsa3072": 2, "rsa4096": 2},
+                  "cl": {"rsa2048": 1, "rsa3072": 1, "rsa4096": 1}}
+
+
+def tier_keys(group: str, quick: bool) -> list[str]:
+    if not quick:
+        return key_names()
+    out = []
+    for n in key_names():
+        k = idx()[n]
+        fam = key_names(k.get("curve") or family(n))
+        if k["type"] == "rsa":
+            if fam.index(n) < QUICK_RSA_KEYS[group][family(n)]:
+                out.append(n)
+        elif group != "sv" or n == fam[0] or n.endswith(("_x0", "_y0")) and not (k["curve"] == "secp521r1" and n.endswith("_y0")):
+            out.append(n)
+    return out
+
+
 def build_cases(tier: str, seed: int) -> list[dict]:
     quick = tier == "quick"
     cases: list[dict] = []
@@ -1357,7 +1443,7 @@ def build_cases(tier: str, seed: int) -> list[dict]:
         names = key_names(cname)
         if quick:
             # P-521: the digest must stay below 2^512, which the tiny scalars of the *_x0/_y0 keys (d = 2, 4) rarely allow
-            names = names[:2] if cname == "secp521r1" else [names[0]] + [n for n in names if n.endswith("_x0")]
+            names = names[:1] if cname == "secp521r1" else [names[0]] + [n for n in names if n.endswith("_x0")]
         for n in names:
             for rc in R_CLASSES:
                 if cname == "secp521r1" and rc == "full-msb1":
@@ -1383,21 +1469,30 @@ def build_cases(tier: str, seed: int) -> list[dict]:
                     for lo in range(0, nb, FLIP_CHUNK):
                         last = lo + FLIP_CHUNK >= nb
                         cases.append({**base, "lo": lo, "hi": None if last else lo + FLIP_CHUNK})
-    # rt
+    # rt: public keys of every key; private keys of every ECC key and (quick) of a subset of the RSA keys
+    rt_priv = set(tier_keys("rt", quick))
     for n in key_names():
         k = idx()[n]
         for enc in ("PEM", "DER", "NXP"):
             for pwn in PASSWORDS:
-                cases.append({"g": "rt", "key": n, "kind": "priv", "enc": enc, "pw": pwn})
+                if n in rt_priv:
+                    cases.append({"g": "rt", "key": n, "kind": "priv", "enc": enc, "pw": pwn})
         for enc in ("PEM", "DER", "NXP") + (("NXP4",) if k["type"] == "rsa" else ()):
             cases.append({"g": "rt", "key": n, "kind": "pub", "enc": enc, "pw": "none"})
+    # rt on the derived keys (coordinates starting with a byte a format sniffer could key on): the whole public
+    # product, and the private key without password as a source of extract_public_key_from_data
+    for n in key_names(derived=True):
+        for enc in ("PEM", "DER", "NXP"):
+            cases.append({"g": "rt", "key": n, "kind": "pub", "enc": enc, "pw": "none"})
+        for enc in ("PEM", "DER"):
+            cases.append({"g": "rt", "key": n, "kind": "priv", "enc": enc, "pw": "none"})
     # ct, cl
     for t in cert_table():
         cases.append({"g": "ct", **t})
-    for n in key_names():
+    for n in tier_keys("cl", quick):
         cases.append({"g": "cl", "key": n, "seed": seed})
     # sv
-    for n in key_names():
+    for n in tier_keys("sv", quick):
         k = idx()[n]
         schemes = ("v15", "pss") if k["type"] == "rsa" else ("raw", "der")
         dh = DEFAULT_HASH[k.get("curve", "rsa")]
@@ -1426,7 +1521,12 @@ def run(ctx: core.Ctx) -> None:
                "messages <= 8 B at the key's default hash, 1 B elsewhere")
     ctx.rule = (
         f"full products over the committed pool of {nkeys} keys (RSA-2048/3072/4096, P-256/384/521 incl. keys with a "
-        "leading-zero X or Y): [rt] key x {private, public} x {PEM, DER, NXP(, NXP with 4-byte exponent)} x password "
+        f"leading-zero X or Y) plus {len(key_names(derived=True))} ECC keys derived at check time whose X, and separately Y, starts "
+        f"with each of the bytes {[hex(b) for b in SNIFF_BYTES]} (P-256, P-384; public product + unencrypted private key); "
+        + ("" if thorough else "quick tier: the expensive products run on a subset of the pool keys per family (sign/verify: "
+           f"{tier_keys('sv', True)}; RSA private-key round trips: {[n for n in tier_keys('rt', True) if n.startswith('rsa')]}; command line on RSA: "
+           f"{[n for n in tier_keys('cl', True) if n.startswith('rsa')]}), every other product on every key; ") +
+        "[rt] key x {private, public} x {PEM, DER, NXP(, NXP with 4-byte exponent)} x password "
         "{none, 'p', 32 chars} x entry point {typed parse, PrivateKey/PublicKey.parse, extract_public_key_from_data, "
         "save/load through a file, recreate*, other type's parser}; [ct] every fixture certificate x {DER, PEM, NXP-padded} x "
         "{Certificate.parse, extract_public_key_from_data} and validate() under the right and two wrong issuers; [sv] key x "
@@ -1487,6 +1587,10 @@ def run(ctx: core.Ctx) -> None:
                               + c.get("fl_flips", 0) + c.get("sh_verifications", 0) * 2)
     ctx.cov["dimensions"] = {
         "keys": {f: len(key_names(f)) for f in ("rsa2048", "rsa3072", "rsa4096", "secp256r1", "secp384r1", "secp521r1")},
+        "derived_keys": key_names(derived=True),
+        "keys_in_sign_verify_product": tier_keys("sv", not thorough),
+        "keys_in_private_roundtrip_product": tier_keys("rt", not thorough),
+        "keys_in_command_line_product": tier_keys("cl", not thorough),
         "hashes": list(HASHES), "message_lengths": list(lens), "passwords": list(PASSWORDS),
         "sigconv_classes": c.get("cv_classes", 0), "sigconv_empty_classes": c.get("cv_classes_empty", 0),
         "sigconv_classes_with_undetermined_width": c.get("cv_ambiguous_width", 0),
